@@ -537,3 +537,38 @@ def rule_py_call_signature(rep, floor=900):
             msg = mismatch(call, target)
             r.check(msg is None, key, m.where(call), "call `%s(...)` in %s does not match the definition of %s: %s" % (ast.unparse(call.func), rel, target.name, msg), detail="signature matches")
     return r.done()
+
+
+def rule_py_highlevel_returns(rep, floor=40):
+    r = rep.rule("FORWARD.py-highlevel", "every function of src/awkward/operations that takes `highlevel` decides the kind of its result with it on every path: each return either goes through ak._util.maybe_wrap / maybe_wrap_like, "
+                 "forwards highlevel= to another operation, or sits under an explicit test of highlevel - a path that returns a bare layout ignores both highlevel and behavior", floor=floor)
+    for rel in [x for x in pf.all_modules() if x.startswith("operations/")]:
+        m = pf.module(rel)
+        for fd in m.tree.body:
+            if not isinstance(fd, ast.FunctionDef):
+                continue
+            params = [a.arg for a in fd.args.args + fd.args.kwonlyargs]
+            if "highlevel" not in params:
+                continue
+            rets = []
+
+            def visit(node, under):
+                for ch in ast.iter_child_nodes(node):
+                    if isinstance(ch, (ast.FunctionDef, ast.Lambda, ast.ClassDef)):
+                        continue
+                    u = under
+                    if isinstance(ch, ast.If) and any(isinstance(x, ast.Name) and x.id == "highlevel" for x in ast.walk(ch.test)):
+                        u = True
+                    if isinstance(ch, ast.Return):
+                        rets.append((ch, under))
+                    visit(ch, u)
+            visit(fd, False)
+            k = 0
+            for ret, under in rets:
+                if ret.value is None:
+                    continue
+                k += 1
+                s = ast.unparse(ret.value)
+                ok = under or "maybe_wrap" in s or "highlevel" in s
+                r.check(ok, "%s:%s#return%d" % (rel, fd.name, k), m.where(ret), "%s in %s returns `%s` without consulting highlevel (and behavior)" % (fd.name, rel, s[:70]), detail="maybe_wrap / highlevel= / under a highlevel test")
+    return r.done()
